@@ -57,3 +57,37 @@ Qed.
 
 Example ex_no_log : no_log (fun n => if n =? 7 then File [97] else Absent) (Some 3).
 Proof. right. exists 3. split; reflexivity. Qed.
+
+(* ---- "whatever bytes the log contains ... the call succeeds": what holds *)
+(* a window that is valid UTF-8 is returned as it is *)
+Theorem rpc_read_valid c off len d :
+  read_file c off len = RData d -> utf8_valid d = true -> rpc_read_log (Some c) off len = RValue d.
+Proof. intros H1 H2. unfold rpc_read_log. rewrite H1, H2. reflexivity. Qed.
+
+Theorem rpc_read_bad_arguments c off len :
+  read_file c off len = RBadArgs -> rpc_read_log (Some c) off len = RFault BAD_ARGUMENTS.
+Proof. intros H. unfold rpc_read_log. rewrite H. reflexivity. Qed.
+
+(* the only failure of a read on an existing file with good arguments is the
+   known finding C16-utf8: the window is not valid UTF-8 *)
+Theorem rpc_read_outcomes c off len :
+  match rpc_read_log (Some c) off len with
+  | RValue d => read_file c off len = RData d /\ utf8_valid d = true
+  | RFault f => f = BAD_ARGUMENTS /\ read_file c off len = RBadArgs
+  | RUndecodable => exists d, read_file c off len = RData d /\ utf8_valid d = false
+  end.
+Proof.
+  unfold rpc_read_log. destruct (read_file c off len) as [d|] eqn:E; [|split; reflexivity].
+  destruct (utf8_valid d) eqn:U; [split; [reflexivity | exact U] | exists d; split; [reflexivity | exact U]].
+Qed.
+
+(* KNOWN FINDING C16-utf8: the statement `the call succeeds whatever bytes the
+   log contains` is false of the code *)
+Theorem rpc_read_succeeds_refuted :
+  exists c off len, rpc_read_log (Some c) off len = RUndecodable.
+Proof. exists [255], 0, 0. vm_compute. reflexivity. Qed.
+
+Theorem rpc_tail_outcomes c off len :
+  let '(d, o, v) := tail_file c off len in
+  rpc_tail_log (Some c) off len = if utf8_valid d then TValue d o v else TUndecodable.
+Proof. unfold rpc_tail_log. destruct (tail_file c off len) as [[d o] v]. reflexivity. Qed.
